@@ -109,6 +109,12 @@ func RunC06(casesPath, tracePath, statsPath string, seed int64, thorough bool) e
 		cases = append(cases, []c06Report{{Rep: "r1", Raw: pr[0], Pow: 2}, {Rep: "r2", Raw: pr[1], Pow: 2}})
 		cases = append(cases, []c06Report{{Rep: "r1", Raw: pr[0], Pow: 1}, {Rep: "r2", Raw: pr[1], Pow: 2}, {Rep: "r3", Raw: pr[0], Pow: 1}})
 	}
+	// values of different widths whose numeric order is not their string order (leading zeros, padded words)
+	w64 := func(v uint64) string { return fmt.Sprintf("%064x", v) }
+	for _, tri := range [][3]string{{"0064", "c8", "012c"}, {"00000005", "7", "0009"}, {w64(10), "ff", w64(20) + w64(0)[:2]}, {"000a", "9", "00b"}, {"0x0064", "c8", "0X012C"}} {
+		cases = append(cases, []c06Report{{Rep: "r1", Raw: tri[0], Pow: 1}, {Rep: "r2", Raw: tri[1], Pow: 1}, {Rep: "r3", Raw: tri[2], Pow: 1}})
+		cases = append(cases, []c06Report{{Rep: "r1", Raw: tri[0], Pow: 2}, {Rep: "r2", Raw: tri[1], Pow: 1}, {Rep: "r3", Raw: tri[2], Pow: 2}, {Rep: "r4", Raw: tri[1], Pow: 1}})
+	}
 	nEnum := len(cases)
 	// seeded large inputs: many reporters, huge powers (median), long values, equal numeric values spelled differently
 	nBig := 12
